@@ -19,6 +19,7 @@
 (*  kind "rw"   the implementation read file A (ents per git's listing,    *)
 (*              exts per projection, header version hv) and wrote file B:  *)
 (*              obs/trailer/rb/gl/okeys describe B, bexts = B's extensions *)
+(*              fsckok = git fsck accepts B's checksum (TRUE if not run)    *)
 (*                                                                         *)
 (* Verdict: <<"VERDICT", tid, property clauses failed, shape clauses       *)
 (* failed, machinery clauses failed>>.  Property clauses are the clauses   *)
@@ -63,7 +64,7 @@ Judge(t) ==
               \o If(t.rbok /\ SameSet(t.rb, exp), "RoundTrip")
               \o If(t.glok /\ t.gl = exp, "GitLists")
               \o If(t.pok => (Ordered(t.okeys) /\ Len(t.okeys) = Len(es)), "Order")
-              \o If(t.trailer = (IF t.skip THEN "zeros" ELSE "sha1"), "Checksum"),
+              \o If(t.trailer = (IF t.skip THEN "zeros" ELSE "sha1") /\ t.fsckok, "Checksum"),
               If(t.obs = Runs(EntryRegion(t.hv, es) \o ExtsFields(SelectSeq(t.exts, Keeps), 1)), "Layout"),
               <<>> >>
 
